@@ -626,7 +626,15 @@ pub fn main(args: &[String]) {
                         emit(e, &mut w);
                     }
                     if !bita.is_empty() && ai % cli_every == 0 {
-                        let e = cli("cli_clone", &a, &[], &[], &b.src_bytes, &format!("{}", ncase), &["--verify-output".to_string()]);
+                        // the CLI's own pipeline under its options: single / several chunk buffers, with and without the final output check
+                        // (--verify-output alone would mask any weakness of the per-chunk verification)
+                        let extra: Vec<String> = match (ai / cli_every) % 4 {
+                            0 => vec![],
+                            1 => vec!["--buffered-chunks".into(), "1".into()],
+                            2 => vec!["--verify-output".into()],
+                            _ => vec!["--buffered-chunks".into(), "8".into()],
+                        };
+                        let e = cli("cli_clone", &a, &[], &[], &b.src_bytes, &format!("{}", ncase), &extra);
                         nrun += 1;
                         emit(e, &mut w);
                         let e = cli("cli_info", &a, &[], &[], &b.src_bytes, &format!("{}", ncase), &[]);
@@ -647,7 +655,7 @@ pub fn main(args: &[String]) {
                 let bad = json!({"how": beh, "k": k});
                 let script = match target { "header1" => json!([bad]), "header2" => json!([full, bad]), _ => json!([full, full, bad]) };
                 ncase += 1;
-                emit(json!({"ev": "case", "n": ncase, "kind": "server", "beh": beh, "target": target, "region": if beh == "extra" { "none" } else if target == "chunks" { "chunk" } else { "dict" }, "chunk": 1, "needed": true,
+                emit(json!({"ev": "case", "n": ncase, "kind": "server", "beh": beh, "target": target, "region": if beh == "extra" || beh.starts_with("cl") || beh == "chunked" { "none" } else if target == "chunks" { "chunk" } else { "dict" }, "chunk": 1, "needed": true,
                             "len": b.archive.len(), "alg": 2, "f": {}}), &mut w);
                 let e = l1(&mut pool, &b.archive, "clone", &[], &[], true, &script, &b.src_bytes, &[]);
                 nrun += 1;
